@@ -4,7 +4,7 @@
 (* (= one complete run in one mode); the silent lane is the reference.  The   *)
 (* design-level statement is MC_Session!ModeNonInterference (two copies of    *)
 (* the session machine differing only in the mode stay equal).                *)
-EXTENDS TraceBase
+EXTENDS TraceBase, Summary
 VARIABLES l, ref
 vars == <<l, ref>>
 Ev == TheTrace[l]
@@ -31,7 +31,20 @@ Lane ==
             IN LaneOK(Ev, r) /\ ref' = r
        ELSE Ev.run = ref.run /\ LaneOK(Ev, ref) /\ ref' = ref
     /\ l' = l + 1
-Next == Lane
+\* structure of the printed multi channel summary (growth beyond the listed properties): which channels are reported
+\* as minimal, which are listed, which one is the maximum - for every weight pattern, without error
+PairsOf(f) == [i \in 1 .. Len(f) \div 2 |-> <<f[2 * i - 1], f[2 * i]>>]
+SummaryEv ==
+    /\ l <= TraceLen /\ Ev.e = "Summary"
+    /\ Ev.status = "ok"
+    /\ LET e == Expected(Ev.w, Ev.S, Ev.N) IN
+       /\ StructureOfOK(Ev.w, e)
+       /\ Ev.channels = e.channels /\ Ev.minCount = e.minCount
+       /\ PairsOf(Ev.minRuns) = e.minRuns
+       /\ Ev.printed = e.printed
+       /\ Ev.wmax = e.wmax
+    /\ ref' = ref /\ l' = l + 1
+Next == Lane \/ SummaryEv
 Spec == Init /\ [][Next]_vars
 TraceAccepted == TraceAcceptedBy(TraceLen)
 =============================================================================
